@@ -13,7 +13,8 @@ From Tink Require Import Bytes Wrap MldsaScalar MldsaScalarProofs MldsaScalarPro
   MldsaKernels MldsaKernelsProofs MldsaPoly Mldsa
   MldsaPackProofs MldsaHintProofs MldsaUseHintProofs MldsaLowBitsProofs MldsaNttProofs MldsaAlgebraProofs
   MldsaProofs MldsaExamples
-  MldsaConvProofs MldsaNormProofs MldsaSampleProofs MldsaSignVerifyProofs MldsaKeyCodecProofs MldsaSignVerifyExamples.
+  MldsaConvProofs MldsaNormProofs MldsaSampleProofs MldsaSignVerifyProofs MldsaKeyCodecProofs MldsaSignVerifyExamples
+  MldsaNttEvalProofs MldsaVerifyIffProofs MldsaCompositeProofs MldsaAcceptExamples.
 Import ListNotations.
 Local Open Scope Z_scope.
 
@@ -419,3 +420,303 @@ Example C10_sign_then_verify_inhabited :
   | None => False
   end.
 Proof. exact ex_sign_then_verify_inhabited. Qed.
+
+(* ------------------------------------------------------------------ *)
+(* 9. the NTT is THE transform of FIPS 204 (section 2.5, Algorithm 41): *)
+(*    evaluation at the roots zeta^(2*brv8(i)+1) of X^256+1             *)
+(* ------------------------------------------------------------------ *)
+(* polyval p x is the integer sum_j p_j x^j (Horner; first clause gives the
+   sum form), zeta = mldsa_zeta = 1753 regenerated from the Go source.  For
+   EVERY polynomial over Z_q and every output index i < 256 the i-th output of
+   the model's ntt (the butterfly loops of algebra.go over the regenerated
+   zetas table) is p(zeta^(2*brv8(i)+1)) mod q; the 256 evaluation points are
+   pairwise distinct roots of X^256+1 (x^256 = -1), in the order of FIPS 204
+   (w(zeta_0), w(-zeta_0), ..., w(zeta_127), w(-zeta_127)), zeta_i =
+   zeta^brv8(128+i); and intt interpolates: it returns the polynomial from its
+   256 values. *)
+Theorem C10_ntt_is_evaluation :
+  (forall p x, polyval p x =
+     fold_right Z.add 0 (map (fun jc => snd jc * x ^ Z.of_nat (fst jc)) (combine (seq 0 (length p)) p))) /\
+  (forall p i, cpoly p -> (i < 256)%nat ->
+     List.nth i (ntt p) 0 = (polyval p (mldsa_zeta ^ (2 * brv8 (Z.of_nat i) + 1))) mod q) /\
+  (forall i, ntt_root i = (mldsa_zeta ^ (2 * brv8 (Z.of_nat i) + 1)) mod q) /\
+  (forallb (fun i => powmod (ntt_root i) 256 mldsa_q =? mldsa_q - 1) (seq 0 256) = true /\
+   NoDup (map ntt_root (seq 0 256))) /\
+  forallb (fun i => (ntt_root (2 * i) =? powmod mldsa_zeta (Z.to_nat (brv8 (Z.of_nat (128 + i)))) mldsa_q) &&
+                    (ntt_root (2 * i + 1) =? mldsa_q - powmod mldsa_zeta (Z.to_nat (brv8 (Z.of_nat (128 + i)))) mldsa_q))
+          (seq 0 128) = true /\
+  (forall p, cpoly p -> ntt p = map (fun i => (polyval p (ntt_root i)) mod q) (seq 0 256) /\
+                        intt (map (fun i => (polyval p (ntt_root i)) mod q) (seq 0 256)) = p).
+Proof.
+  split; [exact polyval_sum|]. split; [exact ntt_is_evaluation_Z|]. split; [exact ntt_root_pow|].
+  split; [exact ntt_roots_are_roots|]. split; [exact ntt_roots_fips_order|].
+  intros p Hp.
+  assert (E : map (fun i => (polyval p (ntt_root i)) mod q) (seq 0 256) = ntt_spec p).
+  { unfold ntt_spec. apply map_ext. intros i. symmetry. apply peval_polyval. }
+  rewrite E. split; [apply ntt_eq_spec; exact Hp | apply intt_of_evaluations; exact Hp].
+Qed.
+Print Assumptions C10_ntt_is_evaluation.
+
+Example C10_ntt_is_evaluation_inhabited :
+  let p := upd 2 1 (upd 0 3 zero_poly) in
+  cpoly p /\ List.nth 0 (ntt p) 0 = (1753 * 1753 + 3) mod q /\ ntt_root 0 = 1753 /\
+  ntt_root 1 = q - 1753 /\ List.nth 1 (ntt p) 0 = (1753 * 1753 + 3) mod q /\
+  List.nth 2 (ntt p) 0 = (polyval p (1753 ^ 129)) mod q.
+Proof. exact ex_ntt_eval. Qed.
+
+(* ------------------------------------------------------------------ *)
+(* 10. Verify accepts EXACTLY the valid signatures                      *)
+(* ------------------------------------------------------------------ *)
+(* sigDecode is strict: the packers invert the unpackers on byte strings, so
+   a byte string is decoded iff it is the canonical encoding of the (c~, z, h)
+   it decodes to, with z over Z_q in (-gamma1, gamma1] and h a 0/1 vector of k
+   polynomials of weight <= omega *)
+Theorem C10_sigDecode_iff : forall P sigma c z h,
+  P = MLDSA44 \/ P = MLDSA65 \/ P = MLDSA87 -> wfb sigma ->
+  (sigDecode P sigma = Some (c, z, h) <->
+   sigma = sigEncode P c z h /\ length c = ctLen P /\ cvec (p_l P) z /\
+   Forall (Forall (fun x => 0 <= x < q /\ (gamma1 P - x) mod q < 2 ^ Z.of_nat (zBits P))) z /\
+   length h = p_k P /\ Forall (fun p => binary p /\ length p = degree) h /\ (weight h <= p_omega P)%nat).
+Proof.
+  intros P sigma c z h HP W. pose proof (params_ok_facts P HP) as PF.
+  destruct (g1_facts P PF) as [Hg H2]. destruct PF as [_ Ho _ _ _ _]. split.
+  - apply sigDecode_strict; auto.
+  - intros (-> & Lc & Hz & Rz & Lh & Sh & Wh). apply sigDecode_sigEncode; auto. apply cvec_polys. exact Hz.
+Qed.
+Print Assumptions C10_sigDecode_iff.
+
+(* bit packing in the other direction, and the meaning of the norm check *)
+Theorem C10_pack_unpack_and_norm :
+  (forall bits enc, (0 < bits)%nat -> wfb enc -> length enc = (32 * bits)%nat ->
+     simpleBitPack bits (simpleBitUnpack bits enc) = enc) /\
+  (forall a bits enc, (0 < bits)%nat -> 0 <= a < q -> 2 ^ Z.of_nat bits <= q -> wfb enc ->
+     length enc = (32 * bits)%nat -> bitPack a bits (bitUnpack a bits enc) = enc) /\
+  (forall v B, Forall canon v -> 0 < B ->
+     (vinfNorm v < B <-> Forall (Forall (fun x => cabs x < B)) v)).
+Proof. exact (conj simpleBitPack_simpleBitUnpack (conj bitPack_bitUnpack vinfNorm_lt_iff)). Qed.
+Print Assumptions C10_pack_unpack_and_norm.
+
+(* THE ACCEPT SET.  For each of ML-DSA-44/65/87, every public key with k
+   polynomials t1 of 256 coefficients below 2^10 (everything pkDecode returns
+   and every generated key), every mu and every byte string sigma:
+   verifyInternalWithMu answers "accept" iff sigma is the canonical encoding
+   of some (c~, z, h) — c~ of lambda/4 bytes, z a vector of l polynomials over
+   Z_q, h a 0/1 vector of k polynomials with at most omega ones —, every
+   coefficient of z has |z_i mod+- q| < gamma1 - beta, ExpandA(rho) and
+   SampleInBall(c~) return (the only way they do not is an exhausted XOF
+   stream), and c~ = H(mu || w1Encode(w1')) for
+   w1' = UseHint(h, NTT^-1(A^ o NTT(z) - NTT(c) o NTT(t1 * 2^d))), UseHint being
+   the FIPS 204 specification function useHint_spec of section 1 and NTT the
+   transform of section 9.  SHAKE128/SHAKE256 are arbitrary functions; no law
+   about them is used. *)
+Theorem C10_verify_accepts_exactly : forall (shake128 shake256 : bytes -> nat -> bytes) P pk mu sigma,
+  P = MLDSA44 \/ P = MLDSA65 \/ P = MLDSA87 ->
+  length (pk_t1 pk) = p_k P /\
+  Forall (fun p => length p = 256%nat /\ Forall (fun c => 0 <= c < 1024) p) (pk_t1 pk) ->
+  wfb sigma ->
+  (verifyInternalWithMu shake128 shake256 P pk mu sigma = Some true <->
+   exists ct z h Ah c,
+     sigma = sigEncode P ct z h /\ length ct = ctLen P /\ cvec (p_l P) z /\
+     (length h = p_k P /\ Forall (fun p => binary p /\ length p = degree) h) /\
+     (weight h <= p_omega P)%nat /\
+     Forall (Forall (fun x => cabs x < gamma1 P - beta P)) z /\
+     expandA shake128 P (pk_rho pk) = Some Ah /\
+     sampleInBall shake256 (p_tau P) ct = Some c /\
+     ct = shake256 (mu ++ w1Encode P
+            (map2 (map2 (fun a hint => useHint_spec a (p_gamma2 P) hint))
+               (vintt (vsub (mmul Ah (vntt z)) (vscalarMul (ntt c) (vntt (map pscalePower2 (pk_t1 pk))))))
+               h)) (ctLen P)).
+Proof.
+  intros shake128 shake256 P pk mu sigma HP Hpk W.
+  exact (verify_accepts_iff shake128 shake256 P (params_ok_facts P HP) (params_ok_gb P HP) pk mu sigma Hpk W).
+Qed.
+Print Assumptions C10_verify_accepts_exactly.
+
+(* the other two answers: "no answer" iff the signature decodes and an XOF
+   stream ran out; everything that does not decode (wrong length, malformed
+   hint section) is rejected *)
+Theorem C10_verify_other_answers : forall (shake128 shake256 : bytes -> nat -> bytes) P pk mu sigma,
+  P = MLDSA44 \/ P = MLDSA65 \/ P = MLDSA87 -> pk_ok P pk ->
+  (verifyInternalWithMu shake128 shake256 P pk mu sigma = None <->
+   exists ct z h, sigDecode P sigma = Some (ct, z, h) /\
+     (expandA shake128 P (pk_rho pk) = None \/ sampleInBall shake256 (p_tau P) ct = None)) /\
+  (sigDecode P sigma = None -> verifyInternalWithMu shake128 shake256 P pk mu sigma = Some false).
+Proof.
+  intros shake128 shake256 P pk mu sigma HP Hpk. split.
+  - exact (verify_none_iff shake128 shake256 P (params_ok_facts P HP) pk mu sigma Hpk).
+  - exact (verify_rejects_undecodable shake128 shake256 P pk mu sigma).
+Qed.
+Print Assumptions C10_verify_other_answers.
+
+(* the same accept set at the layers above (valid_signature is, by
+   definition, the right-hand side of C10_verify_accepts_exactly — first
+   clause): Verify_internal on M', Verify with a context (at most 255 bytes),
+   and the Tink verifier over an ENCODED public key with an output prefix
+   (accepts iff the key decodes, the signature is prefix || s, and s is a valid
+   signature of 0 || 0 || data under tr = H(pk)); every decoded and every
+   generated public key satisfies the key premise. *)
+Theorem C10_verify_accepts_exactly_layers : forall (shake128 shake256 : bytes -> nat -> bytes) P,
+  P = MLDSA44 \/ P = MLDSA65 \/ P = MLDSA87 ->
+  (forall pk mu sigma,
+     valid_signature shake128 shake256 P pk mu sigma <->
+     exists ct z h Ah c,
+       sigma = sigEncode P ct z h /\ length ct = ctLen P /\ cvec (p_l P) z /\
+       (length h = p_k P /\ Forall (fun p => binary p /\ length p = degree) h) /\
+       (weight h <= p_omega P)%nat /\
+       Forall (Forall (fun x => cabs x < gamma1 P - beta P)) z /\
+       expandA shake128 P (pk_rho pk) = Some Ah /\
+       sampleInBall shake256 (p_tau P) ct = Some c /\
+       ct = shake256 (mu ++ w1Encode P (verifier_w1 P Ah c (pk_t1 pk) z h)) (ctLen P)) /\
+  (forall pk Mp sigma, pk_ok P pk -> wfb sigma ->
+     (verifyInternal shake128 shake256 P pk Mp sigma = Some true <->
+      valid_signature shake128 shake256 P pk (shake256 (pk_tr pk ++ Mp) 64%nat) sigma)) /\
+  (forall pk M sigma ctx, pk_ok P pk -> wfb sigma ->
+     (verify shake128 shake256 P pk M sigma ctx = Some true <->
+      (length ctx <= 255)%nat /\
+      valid_signature shake128 shake256 P pk
+        (shake256 (pk_tr pk ++ [0%N; N.of_nat (length ctx)] ++ ctx ++ M) 64%nat) sigma)) /\
+  (forall prefix pkEnc sigma data, wfb sigma ->
+     (tinkVerify shake128 shake256 P prefix pkEnc sigma data = Some true <->
+      exists pk s, pkDecode shake256 P pkEnc = Some pk /\ sigma = prefix ++ s /\
+        valid_signature shake128 shake256 P pk (shake256 (pk_tr pk ++ [0%N; 0%N] ++ data) 64%nat) s)) /\
+  (forall enc pk, pkDecode shake256 P enc = Some pk -> pk_ok P pk) /\
+  (forall seed pk sk, (forall m n, length (shake256 m n) = n) ->
+     keyGenInternal shake128 shake256 P seed = Some (pk, sk) -> pk_ok P pk).
+Proof.
+  intros shake128 shake256 P HP.
+  pose proof (params_ok_facts P HP) as PF. pose proof (params_ok_gb P HP) as GB.
+  split; [intros; apply iff_refl|].
+  split; [exact (verifyInternal_accepts_iff shake128 shake256 P PF GB)|].
+  split; [exact (verify_ctx_accepts_iff shake128 shake256 P PF GB)|].
+  split; [exact (tinkVerify_accepts_iff shake128 shake256 P PF GB)|].
+  split; [exact (pkDecode_ok shake256 P)|].
+  intros seed pk sk HL HK. exact (generated_pk_ok shake128 shake256 P seed pk sk HL HP HK).
+Qed.
+Print Assumptions C10_verify_accepts_exactly_layers.
+
+(* the premises are met and BOTH sides of the equivalences are inhabited
+   (toy XOF of section 8): a generated ML-DSA-44 key, a produced signature
+   that is accepted, and a changed c~ byte, a truncation, an over-long
+   context, a wrong output prefix that are rejected; an XOF that runs out
+   yields no answer *)
+Example C10_verify_accepts_exactly_inhabited :
+  (MLDSA44 = MLDSA44 \/ MLDSA44 = MLDSA65 \/ MLDSA44 = MLDSA87) /\ pk_ok MLDSA44 ex_pk44 /\ wfb ex_sig44 /\
+  length ex_sig44 = 2420%nat /\
+  verify ex_shake128 ex_shake256 MLDSA44 ex_pk44 [] ex_sig44 [] = Some true /\
+  verify ex_shake128 ex_shake256 MLDSA44 ex_pk44 [] (1%N :: tl ex_sig44) [] = Some false /\
+  verify ex_shake128 ex_shake256 MLDSA44 ex_pk44 [] (tl ex_sig44) [] = Some false /\
+  verify ex_shake128 ex_shake256 MLDSA44 ex_pk44 [] ex_sig44 (zeros 256) = Some false /\
+  tinkVerify ex_shake128 ex_shake256 MLDSA44 [1%N] (pkEncode ex_pk44) (1%N :: ex_sig44) [] = Some true /\
+  tinkVerify ex_shake128 ex_shake256 MLDSA44 [1%N] (pkEncode ex_pk44) (2%N :: ex_sig44) [] = Some false /\
+  verify (fun _ _ => []) ex_shake256 MLDSA44 ex_pk44 [] ex_sig44 [] = None.
+Proof. exact ex_accept_set_inhabited. Qed.
+
+(* ------------------------------------------------------------------ *)
+(* 11. composite ML-DSA and the prehash path, composed end to end       *)
+(* ------------------------------------------------------------------ *)
+(* Composite verification (signature/compositemldsa verifier.Verify: prefix,
+   minimum length, ML-DSA component with context = label over
+   M' = "CompositeAlgorithmSignatures2025" || label || 0x00 || SHA-512(data),
+   then the classical component over M') accepts IFF the signature is
+   prefix || s1 || s2 where s1 is accepted by ML-DSA Verify for (M', label) and
+   s2 by the classical verifier for M' — for every parameter record, SHA-512,
+   classical verifier and XOF (all arbitrary functions), with no premise; for
+   a given split with |s1| = signatureLength the split is the only one (second
+   clause).  With section 10 (third clause) the ML-DSA side is unfolded down
+   to the coefficients. *)
+Theorem C10_composite_verifies_iff_both :
+  forall (shake128 shake256 : bytes -> nat -> bytes) P (sha512 : bytes -> bytes)
+         (classicalVerify : bytes -> bytes -> bytes -> bool),
+  (forall prefix pkEnc clPk label sigma data,
+     compositeVerify shake128 shake256 P sha512 classicalVerify prefix pkEnc clPk label sigma data = Some true <->
+     exists pk s1 s2,
+       pkDecode shake256 P pkEnc = Some pk /\ sigma = prefix ++ s1 ++ s2 /\
+       verify shake128 shake256 P pk (compositeDomain ++ label ++ [0%N] ++ sha512 data) s1 label = Some true /\
+       classicalVerify clPk (compositeDomain ++ label ++ [0%N] ++ sha512 data) s2 = true) /\
+  (forall prefix pkEnc clPk label s1 s2 data pk,
+     pkDecode shake256 P pkEnc = Some pk -> length s1 = signatureLength P ->
+     (compositeVerify shake128 shake256 P sha512 classicalVerify prefix pkEnc clPk label (prefix ++ s1 ++ s2) data = Some true <->
+      verify shake128 shake256 P pk (compositeDomain ++ label ++ [0%N] ++ sha512 data) s1 label = Some true /\
+      classicalVerify clPk (compositeDomain ++ label ++ [0%N] ++ sha512 data) s2 = true)) /\
+  (P = MLDSA44 \/ P = MLDSA65 \/ P = MLDSA87 ->
+   forall prefix pkEnc clPk label sigma data, wfb sigma ->
+     (compositeVerify shake128 shake256 P sha512 classicalVerify prefix pkEnc clPk label sigma data = Some true <->
+      exists pk s1 s2,
+        pkDecode shake256 P pkEnc = Some pk /\ sigma = prefix ++ s1 ++ s2 /\ (length label <= 255)%nat /\
+        valid_signature shake128 shake256 P pk
+          (computeMu shake256 (pk_tr pk) (formatMsg (compositeMessagePrime sha512 label data) label)) s1 /\
+        classicalVerify clPk (compositeMessagePrime sha512 label data) s2 = true)).
+Proof.
+  intros shake128 shake256 P sha512 classicalVerify.
+  split; [exact (compositeVerify_accepts_iff shake128 shake256 P sha512 classicalVerify)|].
+  split; [exact (compositeVerify_needs_both shake128 shake256 P sha512 classicalVerify)|].
+  intros HP. exact (compositeVerify_accepts_valid shake128 shake256 P sha512 classicalVerify HP).
+Qed.
+Print Assumptions C10_composite_verifies_iff_both.
+
+(* produced signatures, composed end to end through the ENCODED public key:
+   (1) the ML-DSA component made by the composite signer, followed by any
+   classical signature the classical verifier accepts, is accepted by the
+   composite verifier;  (2) SignPrehash never refuses ComputePrehash(data) for
+   its own key id, and the signature it makes over the prehash of data computed
+   from the public key is accepted by the ORDINARY Tink verifier of the
+   external-mu key (empty output prefix) for data;  (3) a prehash of another
+   length, without the 0xFF start byte or for another key id is refused. *)
+Theorem C10_composite_and_prehash_sign_then_verify :
+  forall (shake128 shake256 : bytes -> nat -> bytes) P (sha512 : bytes -> bytes)
+         (classicalVerify : bytes -> bytes -> bytes -> bool) seed pk sk,
+  (forall m n, length (shake256 m n) = n) ->
+  P = MLDSA44 \/ P = MLDSA65 \/ P = MLDSA87 ->
+  keyGenInternal shake128 shake256 P seed = Some (pk, sk) ->
+  (forall fuel prefix clPk label data rnd s1 s2,
+     compositeSignMldsaPart shake128 shake256 P sha512 fuel sk label data rnd = Some (Some s1) ->
+     classicalVerify clPk (compositeMessagePrime sha512 label data) s2 = true ->
+     compositeVerify shake128 shake256 P sha512 classicalVerify prefix (pkEncode pk) clPk label
+       (prefix ++ s1 ++ s2) data = Some true) /\
+  (forall fuel keyID data rnd,
+     signPrehash shake128 shake256 P fuel sk keyID (computePrehash shake256 (pk_tr pk) keyID data) rnd =
+     Some (signInternalWithMu shake128 shake256 P fuel sk (computeMu shake256 (pk_tr pk) (formatMsg data [])) rnd)) /\
+  (forall fuel keyID data rnd s,
+     signPrehash shake128 shake256 P fuel sk keyID (computePrehash shake256 (pk_tr pk) keyID data) rnd = Some (Some s) ->
+     tinkVerify shake128 shake256 P [] (pkEncode pk) s data = Some true) /\
+  (forall fuel keyID prehash rnd,
+     length prehash <> 69%nat \/ List.nth 0 prehash 0%N <> 255%N \/
+     firstn 4 (skipn 1 prehash) <> be_bytes 4 keyID ->
+     signPrehash shake128 shake256 P fuel sk keyID prehash rnd = None).
+Proof.
+  intros shake128 shake256 P sha512 classicalVerify seed pk sk HL HP HK.
+  split; [intros; eapply (composite_sign_then_verify shake128 shake256 P sha512 classicalVerify HL HP); eauto|].
+  split; [intros; apply (signPrehash_computePrehash shake128 shake256 P HL)|].
+  split; [intros; eapply (prehash_sign_then_tinkVerify shake128 shake256 P HL HP); eauto|].
+  intros. apply signPrehash_refuses. assumption.
+Qed.
+Print Assumptions C10_composite_and_prehash_sign_then_verify.
+
+(* the premises are inhabited and both outcomes occur: ML-DSA-65 key and
+   composite component from a toy XOF with the length law, a toy classical
+   verifier accepting exactly the one-byte signature 07; prehash signing with
+   the ML-DSA-44 key of section 10 *)
+Example C10_composite_inhabited :
+  (forall m n, length (ex_shake256_65 m n) = n) /\ (MLDSA65 = MLDSA44 \/ MLDSA65 = MLDSA65 \/ MLDSA65 = MLDSA87) /\
+  keyGenInternal ex_shake128 ex_shake256_65 MLDSA65 [] = Some (ex_pk65, ex_sk65) /\
+  compositeSignMldsaPart ex_shake128 ex_shake256_65 MLDSA65 ex_sha512 1 ex_sk65 ex_label [1%N] [] = Some (Some ex_sig65) /\
+  length ex_sig65 = 3309%nat /\
+  compositeVerify ex_shake128 ex_shake256_65 MLDSA65 ex_sha512 ex_classical [9%N] (pkEncode ex_pk65) [] ex_label
+    ([9%N] ++ ex_sig65 ++ [7%N]) [1%N] = Some true /\
+  compositeVerify ex_shake128 ex_shake256_65 MLDSA65 ex_sha512 ex_classical [9%N] (pkEncode ex_pk65) [] ex_label
+    ([9%N] ++ ex_sig65 ++ [8%N]) [1%N] = Some false /\
+  compositeVerify ex_shake128 ex_shake256_65 MLDSA65 ex_sha512 ex_classical [9%N] (pkEncode ex_pk65) [] ex_label
+    ([9%N] ++ (1%N :: tl ex_sig65) ++ [7%N]) [1%N] = Some false /\
+  compositeVerify ex_shake128 ex_shake256_65 MLDSA65 ex_sha512 ex_classical [9%N] (pkEncode ex_pk65) [] ex_label
+    ([9%N] ++ [7%N]) [1%N] = Some false.
+Proof. exact ex_composite_inhabited. Qed.
+
+Example C10_prehash_inhabited :
+  match signPrehash ex_shake128 ex_shake256 MLDSA44 1 ex_sk44 7
+          (computePrehash ex_shake256 (pk_tr ex_pk44) 7 [42%N]) [] with
+  | Some (Some s) => tinkVerify ex_shake128 ex_shake256 MLDSA44 [] (pkEncode ex_pk44) s [42%N] = Some true
+  | _ => False
+  end /\
+  signPrehash ex_shake128 ex_shake256 MLDSA44 1 ex_sk44 7
+    (computePrehash ex_shake256 (pk_tr ex_pk44) 8 [42%N]) [] = None.
+Proof. exact ex_prehash_inhabited. Qed.
